@@ -20,6 +20,7 @@ from vp.core.hyp import campaign, Outcome
 from vp.flo import ast as A
 from vp.flo.run import run_real
 from vp.flo.engine import all_events
+from vp.flo import clonegrid as CG
 
 PROPERTY = "C21"
 LEVEL = "exploration"
@@ -259,11 +260,39 @@ def plan(tier):
     shards = [{"part": "table", "i": i, "n": n} for i in range(n)]
     k = 4 if tier == "quick" else 16
     shards += [{"part": "conj", "i": i, "n": k, "count": 40 if tier == "quick" else 1200} for i in range(k)]
+    shards += [{"part": "clone", "i": i, "n": 2} for i in range(2)]
     return shards
+
+
+def clone_cases():
+    """Clock conditions written inside a cloned framer: every operator x negation x spelling on elapsed / recurred with
+    goals on, below and above the values the clone's own clocks take."""
+    out = []
+    for clock, goals in (("elapsed", ["0", "0.125", "0.25", "0.5", "9"]), ("recurred", ["0", "1", "2", "4", "90"])):
+        for op in OPS:
+            for neg in (False, True):
+                for goal in goals:
+                    for k, (sp, tag, delay) in enumerate(itertools.product(("", " re me"), CG.TAGS, (0, 2))):
+                        if (len(out) + k) % 2 and goal not in ("0.25", "2"):
+                            continue        # the full cross only for the goal in the middle of the run
+                        out.append({"P": P, "cond": ["need", clock, op, goal, neg], "spelling": sp, "tag": tag, "delay": delay})
+    return out
 
 
 def work(shard, seed, tier):
     acc = Acc()
+    if shard["part"] == "clone":
+        cases = [c for j, c in enumerate(clone_cases()) if j % shard["n"] == shard["i"]]
+        for j, case in enumerate(cases):
+            fails, tr, info = CG.check(case)
+            acc.case(key=("clone", repr(case)), nontrivial=True,
+                     classes=["clone-clock-condition", "clone:" + case["cond"][1] + case["cond"][2]],
+                     sample={"script": tr.get("text"), "expected_leave": info.get("exp")} if j % 97 == 0 else None)
+            for sig, what in fails:
+                acc.fail(sig, what, {"clone": case})
+        acc.note("clock conditions inside cloned framers: %d (clock, operator, negation, goal, spelling, tag, delay) cases enumerated"
+                 % len(clone_cases()))
+        return acc
     if shard["part"] == "table":
         table = single_clauses()
         mine = [x for j, x in enumerate(table) if j % shard["n"] == shard["i"]]
@@ -320,13 +349,16 @@ def work(shard, seed, tier):
 
 
 def replay(case):
+    if "clone" in case:
+        return CG.check(case["clone"])[0]
     fails, obs = run_items([(n, v) for n, v in case["items"]])
     return fails
 
 
 RULE = ("full table of single clauses (6 operators x not x int/float/negative/zero/string/bool states x goal on/below/above the state x direct/indirect goal x "
         "tolerance none/0/0.5/-0.5; decimal states on / inside / outside the edge of decimal tolerance bands; explicitly written state and goal fields (`sf in path`) of multi-field shares; elapsed/recurred clocks in the bare and the `re [me|framer]` spelling with direct/indirect goal and tolerance; bare truthiness) + Hypothesis conjunctions of 1-3 clauses; each clause is a `go b if ..` whose "
-        "outcome at its first evaluation is compared with direct evaluation of the written comparison. non-trivial = negated, conjunction, clock, or goal "
+        "outcome at its first evaluation is compared with direct evaluation of the written comparison; clock conditions written inside a CLONED framer (`aux moot as mine|tag`): "
+        "the tick at which the clone leaves the frame vs exact evaluation on the clone's own clocks. non-trivial = negated, conjunction, clock, or goal "
         "within 0.5 of the state (boundary); distinct = distinct (condition text, share values)")
 ASSUMPTIONS = ["ordering operators are only generated between number-number and string-string operands",
                "booleans are compared with ==/!= against booleans without tolerance and by bare truthiness only (whether a bool is a 'number' for the tolerance rule is not stated)",
